@@ -17,3 +17,11 @@ Lemma ob_emit_debits : emit_debits_conn = true /\ emit_debits_stream = true.
 Proof. vm_compute. split; reflexivity. Qed.
 Lemma ob_settings_delta_not_on_connection : settings_delta_touches_conn = false.
 Proof. vm_compute. reflexivity. Qed.
+Lemma ob_credit_frame_length : credit_frame_length = true.
+Proof. vm_compute. reflexivity. Qed.
+Lemma ob_settings_validated : settings_validated = true.
+Proof. vm_compute. reflexivity. Qed.
+Lemma ob_cont_end_stream_from_frame : cont_end_stream_from_frame = true.
+Proof. vm_compute. reflexivity. Qed.
+Lemma ob_decoder_not_resized : table_size_resizes_decoder = false.
+Proof. vm_compute. reflexivity. Qed.
